@@ -443,7 +443,7 @@ func genC04(seed uint64, run int, tier string) *Case {
 // (values, positions, tape) still come from the seed.
 
 var c04Shapes = []func(r rng, tier string) *Case{
-	shapeWhereSwitch, shapeTickBetweenNow, shapeTZLiteral, shapePatchShared, shapeStallCompile, shapeClockExact, shapeOrder, shapeTypedCallbacks, shapePatterns, shapeTypeHistory, shapeCallerChanges, shapeZoneElements, shapeBigWalk, shapeRootCollection, shapePermissiveLegacy, shapeLiteralSharing, shapeSharedCollections,
+	shapeCanary, shapeWhereSwitch, shapeTickBetweenNow, shapeTZLiteral, shapePatchShared, shapeStallCompile, shapeClockExact, shapeOrder, shapeTypedCallbacks, shapePatterns, shapeTypeHistory, shapeCallerChanges, shapeZoneElements, shapeBigWalk, shapeRootCollection, shapePermissiveLegacy, shapeLiteralSharing, shapeSharedCollections,
 }
 
 func baseShape(r rng, tier, name string, types ...string) *genCtx {
@@ -1002,6 +1002,36 @@ func shapeSharedCollections(r rng, tier string) *Case {
 		}
 		c.Clients = append(c.Clients, ops)
 	}
+	return c
+}
+
+// shapeCanary is run 0 of every batch: a fixed, broad list of pure expressions evaluated by a
+// single client, in a fixed order. In a forward-order process it is the first thing the process
+// does (every lazily built table, memo and package-level setting is cold); in the reverse-order
+// processes of the self-test it comes last (everything is warm). Its outcome must be the same.
+func shapeCanary(r rng, tier string) *Case {
+	g := baseShape(r, tier, "canary", "Patient", "Observation")
+	c := g.c
+	c.Knobs.NoSched = true
+	c.Zones = []string{"UTC", "America/St_Johns"}
+	for _, src := range []string{
+		"1 / 3", "(1 / 3).toString()", "10.0 / 7", "2 / 3 * 3", "22 / 7.0", "1.0 / 3.0 = 0.3333333333333333", "(1 / 3).round(5)",
+		"7.5 div 2", "1.0 div 3", "7.5 mod 2", "(1 / 3) + (7.5 div 2)", "1 / 3", "10.0 / 7",
+		"'alpha'.matches('^[a-z]+$')", "'Beta'.replaceMatches('[aeiou]', '_')", "'a,b'.replace(',', ';')", "'abc'.substring(1)", "'abc'.indexOf('c')", "'Abc'.upper() & 'x'.lower()",
+		"(5 'mg').toString()", "(3 'mg' + 4 'mg').toString()", "5 'mg' = 5 'mg'", "(1 'kg') > (500 'g')", "1 day + 1 day", "(4 'cm' * 2).toString()",
+		"@2020-03-07T12:00:00-03:30 + 1 day", "@2020-03-07T12:00:00.123-03:30 + 1 month", "@2020-10-31T12:00:00-02:30 + 24 hours", "@2020-02-29 + 1 year", "@T10:00:00 + 90 minutes", "@2020-03-07T12:00:00+13:45.toString()",
+		"@2020-03-07 < @2020-03-08", "@2020-03-07T12:00:00Z = @2020-03-07T08:30:00-03:30", "'2020-03-07'.toDate()", "'2020-03-07T12:00:00-03:30'.toDateTime()", "'12:30'.toTime()", "'1.50'.toDecimal()", "'5 mg'.toQuantity()",
+		"1 is Integer", "1 is System.Integer", "'a' is String", "(5 'mg') is Quantity", "(5 'mg') is System.Quantity", "Observation.value is Quantity", "Patient.active is boolean", "Patient.name.first() is HumanName",
+		"Patient.descendants().count()", "Observation.descendants().where($this is dateTime).count()", "Patient.children().distinct().count()", "Patient.name.given.first().toString()", "Patient.id.combine(Observation.id)",
+		"iif(true, 1, 2)", "{}.empty()", "(1 = 1) and (2 > 1)", "-5.abs()", "2.power(10)", "16.sqrt()", "2.718.ln()", "100.log(10)", "3.14159.round(2)", "1.5.ceiling() + 1.5.floor()",
+	} {
+		c.Programs = append(c.Programs, ProgSpec{Src: src})
+	}
+	var ops []Op
+	for pi := range c.Programs {
+		ops = append(ops, Op{Kind: "eval", Prog: pi, Res: []int{0, 1}})
+	}
+	c.Clients = [][]Op{ops}
 	return c
 }
 
